@@ -4,6 +4,8 @@ package main
 import (
 	"io"
 	"log"
+	"os"
+	"strconv"
 
 	"verif/checks"
 	"verif/mc"
@@ -11,5 +13,10 @@ import (
 
 func main() {
 	log.SetOutput(io.Discard) // package asm logs through the standard logger
+	if len(os.Args) >= 3 && os.Args[1] == "racepass" {
+		n, _ := strconv.Atoi(os.Args[2])
+		checks.C19FreeRun(n)
+		return
+	}
 	mc.Main(checks.All())
 }
